@@ -226,7 +226,7 @@ def run_case(case, ctx):
                 stt = status.get((dn, rel))
                 if stt == "recovered":
                     if V is not None and post_bytes != V:
-                        sig = classify(w, c, dn, f, V, pre_bytes, post_bytes, a)
+                        sig = classify(w, c, dn, f, V, pre_bytes, post_bytes, a, reruns)
                         if sig:
                             known.extend(sig)
                             continue
@@ -241,7 +241,7 @@ def run_case(case, ctx):
                     if a != b and not (a and b and a[0] == "f" and b[0] == "f" and a[1] == b[1] and a[3] == b[3]):
                         if V is not None and post_bytes == V:
                             continue  # silently repaired to the recorded version (e.g. size fix): fine
-                        sig = classify(w, c, dn, f, V, pre_bytes, post_bytes, a)
+                        sig = classify(w, c, dn, f, V, pre_bytes, post_bytes, a, reruns)
                         if sig:
                             known.extend(sig)
                             continue
@@ -273,7 +273,7 @@ def run_case(case, ctx):
         w.destroy()
 
 
-def classify(w, c, dn, f, V, pre_bytes, post_bytes, pre_entry):
+def classify(w, c, dn, f, V, pre_bytes, post_bytes, pre_entry, reruns=0):
     """signature of a listed known finding, or None (see known_findings.json).
     Every block in which the file differs from its recorded version must match the signature."""
     if V is None or post_bytes is None or len(post_bytes) != len(V):
@@ -289,6 +289,12 @@ def classify(w, c, dn, f, V, pre_bytes, post_bytes, pre_entry):
             continue
         if st_ != cfparse.CHG:
             return None
+        # C05-rerun-zero-parity: an earlier fix of this case stopped with a fatal error after it had re-created lost
+        # parity files at full length; their never-written stripes read as zeros in the re-run, which rebuilds the
+        # pending block from them and, having no hash of it, reports the zeros as the recovered file
+        if reruns > 0 and got == b"\0" * len(got):
+            sigs.add("C05-rerun-zero-parity")
+            continue
         # C05-chg-length: the block replaced, at the same position, a synced block of another byte length; the rebuilt OLD bytes
         # pass the "is it new data?" test because the past hash is compared over the NEW block's length
         row = (prev(pos) or {}).get(dn.encode())
